@@ -12,6 +12,7 @@ import ast
 import attr
 from collections import defaultdict
 import datetime
+import html
 import importlib
 import platform
 import sys
@@ -955,6 +956,27 @@ else:
     func_types += (type(dict.__dict__["fromkeys"]), )
 
 _default_extensions = object()
+class _EscapedRepr:
+    """
+    Wraps a default value (or a string annotation) of an introspected signature:
+    L{Function.signature} is rendered by parsing C{str(signature)} as HTML, so the repr 
+    of the values it contains must be HTML, like the one of the values created by the AST builder.
+    """
+    def __init__(self, value: object) -> None:
+        self._value = value
+    def __repr__(self) -> str:
+        return html.escape(repr(self._value), quote=False)
+
+def _escaped_signature(sig: Signature) -> Signature:
+    def wrap(value: object, only_str: bool = False) -> object:
+        if value is Signature.empty or (only_str and not isinstance(value, str)):
+            return value
+        return _EscapedRepr(value)
+    return sig.replace(
+        parameters=[p.replace(default=wrap(p.default), annotation=wrap(p.annotation, True)) 
+                    for p in sig.parameters.values()],
+        return_annotation=wrap(sig.return_annotation, True))
+
 class System:
     """A collection of related documentable objects.
 
@@ -1375,7 +1397,7 @@ class System:
                 f.docstring = v.__doc__
                 f.decorators = None
                 try:
-                    f.signature = signature(v)
+                    f.signature = _escaped_signature(signature(v))
                 except ValueError:
                     # function has an invalid signature.
                     parent.report(f"Cannot parse signature of {parent.fullName()}.{k}")
